@@ -36,6 +36,7 @@ type GenCfg struct {
 	EnumDraws   int
 	MaxLimbBias bool // C09: bias towards carry-free chains
 	BigPool     bool // many slots: long term lists with (nearly) all-distinct operands
+	ColdFirst   bool // the run starts a worker process: vary the first Point operation
 }
 
 // Gen produces the calls of a run from the PRNG and the current world.
@@ -790,6 +791,25 @@ func (g *Gen) setup() {
 			g.push(Call{Op: op, R: i, HasB: true, B: b})
 		}
 	}
+	if g.cfg.ColdFirst && len(w.P) > 0 && len(w.E) >= 4 && len(w.S) > 1 {
+		// cold-first runs (they start a fresh worker process): the first Point
+		// operation of the process is not a constructor or a decoder but one of the
+		// other ways a caller can obtain a point, so that lazily initialised package
+		// state meets every entry point first
+		last := len(w.P) - 1
+		switch rng.Intn(5) {
+		case 0, 1:
+			g.oneRelationQuadruple([]int{0, 1, 2, 3})
+			g.push(Call{Op: "Point.SetExtendedCoordinates", R: last, E: []int{0, 1, 2, 3}, Fault: "reject/sem"})
+		case 2:
+			g.push(Call{Op: "Point.ScalarBaseMult", R: last, S: []int{1}})
+		case 3:
+			g.push(Call{Op: "Point.VarTimeMultiScalarMult", R: last, S: []int{}, P: []int{}})
+		default:
+			g.push(Call{Op: "Point.MultiScalarMult", R: last, S: []int{}, P: []int{}})
+		}
+		g.r.Stats.Inc("fault/cold-first-entry-point")
+	}
 	for i := range w.P {
 		k := rng.Intn(10)
 		switch {
@@ -1121,7 +1141,32 @@ func (g *Gen) oneRelationQuadruple(e []int) {
 	var X, Y, Z, T *big.Int
 	for try := 0; try < 50; try++ {
 		X, Y, Z, T = rnd(), rnd(), rnd(), rnd()
-		switch rng.Intn(6) {
+		switch rng.Intn(7) {
+		case 6:
+			// a point of a NEIGHBOURING curve -x^2+y^2 = 1+d'x^2y^2 (d' = 0, 1, -d, 2d,
+			// d+1), in a consistent projective representation: both relations hold
+			// with the wrong constant, the curve equation does not hold with d
+			dd := []*big.Int{big.NewInt(0), big.NewInt(1), new(big.Int).Sub(P, alpha.D), mulm(big.NewInt(2), alpha.D), new(big.Int).Add(alpha.D, big.NewInt(1))}[rng.Intn(5)]
+			x := rnd()
+			num := new(big.Int).Add(big.NewInt(1), mulm(x, x))
+			den := new(big.Int).Sub(big.NewInt(1), mulm(dd, mulm(x, x)))
+			den.Mod(den, P)
+			if den.Sign() == 0 {
+				X, Y, T = nil, nil, nil
+				continue
+			}
+			y := new(big.Int).ModSqrt(mulm(num, new(big.Int).ModInverse(den, P)), P)
+			if y == nil {
+				X, Y, T = nil, nil, nil
+				continue
+			}
+			if rng.Bool(0.3) {
+				Z = big.NewInt(1)
+			}
+			if Z.Sign() == 0 {
+				Z = big.NewInt(1)
+			}
+			X, Y, T = mulm(x, Z), mulm(y, Z), mulm(mulm(x, y), Z)
 		case 0: // X = 0, curve equation holds, T != 0: Y^2 = Z^2 + d T^2
 			X = big.NewInt(0)
 			y2 := new(big.Int).Add(mulm(Z, Z), mulm(alpha.D, mulm(T, T)))
